@@ -64,9 +64,12 @@ const (
 	eSchema   = 1 // {"pattern":P} against the string S
 	ePPOpen   = 2 // {"patternProperties":{P..:{"type":"null"}}} against {S:1}
 	ePPClosed = 3 // {"patternProperties":{P..:{}},"additionalProperties":false} against {S:1}
+	// eClosedBare: {"additionalProperties":false} against {S:1} — no pattern at all: nothing compiled for an
+	// earlier schema may let the member through (validators are recycled between these one-shot calls)
+	eClosedBare = 4
 )
 
-var entryNames = []string{"helper", "schema-pattern", "pp-open", "pp-closed"}
+var entryNames = []string{"helper", "schema-pattern", "pp-open", "pp-closed", "closed-no-patterns"}
 
 // A Step is one use of one (for patternProperties: one to three) pattern(s).
 type Step struct {
@@ -221,17 +224,19 @@ func genStep(t *rapid.T, npat, nsubj, first int, yields bool) Step {
 		st.E = eHelper
 	case k < 13:
 		st.E = eSchema
-	case k < 17:
+	case k < 16:
 		st.E = ePPOpen
-	default:
+	case k < 19:
 		st.E = ePPClosed
+	default:
+		st.E = eClosedBare
 	}
 	p := first
 	if p < 0 {
 		p = uni(t, npat, "pat")
 	}
 	st.P = []int{p}
-	if st.E >= ePPOpen {
+	if st.E == ePPOpen || st.E == ePPClosed {
 		extra := uni(t, 4, "ppextra") // 0,0,1,2 further patterns
 		for i := 1; i < extra; i++ {
 			q := uni(t, npat, "pat")
@@ -345,7 +350,7 @@ func jstr(s string) string {
 }
 
 func prepare(c *Case, info []patInfo, st Step) (*use, string) {
-	if st.E < 0 || st.E > ePPClosed || len(st.P) == 0 || st.S < 0 || st.S >= len(c.Subjects) {
+	if st.E < 0 || st.E > eClosedBare || len(st.P) == 0 || st.S < 0 || st.S >= len(c.Subjects) {
 		return nil, fmt.Sprintf("malformed step %+v", st)
 	}
 	u := &use{st: st, subj: c.Subjects[st.S]}
@@ -376,6 +381,13 @@ func prepare(c *Case, info []patInfo, st Step) (*use, string) {
 		u.wantOK = first.re != nil && first.re.MatchString(u.subj)
 	}
 	var text string
+	if st.E == eClosedBare {
+		u.pats, u.mustCache = nil, nil
+		text = `{"additionalProperties":false}`
+		u.instance = map[string]interface{}{u.subj: float64(1)}
+		u.wantInvalid = false
+		u.wantOK = u.subj == "$schema" || u.subj == "id" // the library deliberately lets these two through (known, C01/C02)
+	}
 	switch st.E {
 	case eHelper:
 	case eSchema:
@@ -422,6 +434,7 @@ func prepare(c *Case, info []patInfo, st Step) (*use, string) {
 			if u.schema.Pattern != u.pats[0] {
 				return nil, fmt.Sprintf("harness: schema text %s loaded with pattern %q", text, u.schema.Pattern)
 			}
+		case eClosedBare:
 		default:
 			if len(u.schema.PatternProperties) != len(u.pats) {
 				return nil, fmt.Sprintf("harness: schema text %s loaded with %d pattern properties", text, len(u.schema.PatternProperties))
